@@ -32,14 +32,13 @@ CLAIMS["C06"] = {
           "length 0..3 whose every attribute is a solver variable and a symbolic message; decision and matching-rule count equal a fold written from dbus-daemon(1) "
           "(last match wins, default deny, per-attribute semantics); context order default, group, user, console, mandatory.",
   "note": "Strings <=2-3 bytes (enough for equal / dot-prefix / different), fd ranges full width. Registry ownership questions answered by symbolic booleans shared with the "
-          "reference. Not covered: XML parsing of rules, SELinux/AppArmor, bus_context_check_security_policy gate (C06.f not built), denial => no delivery (dispatch).",
+          "reference. Not covered: XML parsing of rules, SELinux/AppArmor, denial => no delivery is the C05 dispatch check; C06.f (the gate bus_context_check_security_policy as a skeleton) is included.",
 }
 CLAIMS["C07"] = {
   "text": "match_rule_matches, match_rule_equal / remove_rule_by_value and bus_matchmaker_disconnected from the real bus/signals.c: for a rule with all 9 flag bits and every "
           "attribute symbolic against a symbolic message (header record + argument cursor), the match verdict equals a reference transcribed from the specification's "
           "Match Rules table, with CBMC pointer/bounds checks on; RemoveMatch removes exactly the most recent equal rule or reports MatchRuleNotFound; disconnect drops exactly the owner's rules.",
-  "note": "Strings <=3 bytes (paths <=4), <=2 argument slots. Found and fixed: F2 (argNpath empty-string under-read). Not covered: rule text grammar (C07.c not built), "
-          "recipient de-duplication across pools (C07.b not built), per-interface hash pools (R7).",
+  "note": "Strings <=3 bytes (paths <=4), <=2 argument slots. Found and fixed: F2 (argNpath empty-string under-read). C07.b recipient set (no duplicates, exactly the owners of matching rules) included. Not covered: rule text grammar (C07.c not built), per-interface hash pools (R7).",
 }
 CLAIMS["C09"] = {
   "text": "One-step checks of the real pending-reply book-keeping (bus_connections_expect_reply / _check_reply / bus_connection_drop_pending_replies in bus/connection.c on the real "
@@ -89,10 +88,13 @@ CLAIMS["C14"] = {
           "(except: dispatch skeleton shows NoMemory => cancel, never execute).",
 }
 CLAIMS["C18"] = {
-  "text": "Placement part only, from the path-complete dispatch check: monitors are offered every routed message (bus_transaction_capture) after the sender was stamped and before the "
-          "policy gate can refuse it; nothing is delivered or handled without having been offered to monitors; refused broadcasts are captured as error replies; a monitor that "
-          "sends anything is disconnected and none of its message is routed.",
-  "note": "bus_transaction_capture itself, bus_connection_be_monitor and the 'as if the monitor were absent' half are not covered.",
+  "text": "(1) Placement, from the path-complete dispatch check: monitors are offered every processed message (bus_transaction_capture) after the sender was stamped and before the "
+          "policy gate can refuse it, undeliverable and refused ones included; refused broadcasts are captured as error replies; a monitor that sends anything is disconnected and "
+          "none of its message is routed. (2) The real bus_transaction_capture on the real transaction code: each monitor its matchmaker selects gets exactly one copy, nobody else "
+          "anything, and with no monitors nothing is staged at all. (3) The real bus_connection_be_monitor: on success every owned name is released once inside the transaction, "
+          "ordinary match rules and own pending calls are dropped, the connection is listed as monitor; on failure it stays an ordinary client and added monitor rules are withdrawn.",
+  "note": "End-to-end equality of other clients' observations with and without a monitor (whole-bus histories) is not covered; capture/be_monitor shapes are small (<=2 monitors, "
+          "<=2 names, <=2 pending replies); name release itself is C04/C14's subject (stubbed here). F9 (CVE-2023-34969) found here and fixed.",
 }
 CLAIMS["C20"] = {
   "text": "The real dbus-object-tree.c driven through its real register / unregister / dispatch API by 12 scripted histories (symbolic fallback flags) and a call to each of 9 paths "
